@@ -29,6 +29,12 @@ type svVotePre struct {
 	ptype  governance.ProposalType
 	update string
 	stages []int
+	// zeroRec: party C has a validator record with zero power (it unstaked everything a
+	// few blocks ago; the record is kept until tendermint has dropped it): not in any
+	// snapshot, but a record the fund distribution walks over
+	zeroRec bool
+	// plainValidators: leave the zero-power record choices out (configuration harness)
+	plainValidators bool
 }
 
 var svPowerTables = [][]int64{{1, 1, 1}, {1, 1, 2}, {33, 33, 34}, {49, 2, 49}}
@@ -105,7 +111,22 @@ func svPreVote(pre *svVotePre, kind int) func(e *svEnv) {
 		}
 		for i := 0; i < e.n; i++ {
 			pt := svParty_(i)
-			isVal := i < 2 || (!svLean && sv.Choice("prop.validator"+svPartyName(i), 2) == 0)
+			isVal := i < 2
+			if i >= 2 && (!svLean || kind == 2) && !pre.plainValidators {
+				switch sv.Choice("prop.validator"+svPartyName(i), 3) {
+				case 0:
+					isVal = !svLean
+				case 2:
+					if kind == 2 && !pre.zeroRec {
+						pre.zeroRec = true
+						z := identity.NewValidator(pt.Addr, pt.Addr, pt.Pub, pt.Pub, *balance.NewAmount(0), "n"+svPartyName(i))
+						z.Power = 0
+						if err := vs.Set(*z); err != nil {
+							sv.Unreachable("zero-power validator")
+						}
+					}
+				}
+			}
 			pre.isVal = append(pre.isVal, isVal)
 			op := governance.OPIN_UNKNOWN
 			if isVal {
@@ -137,6 +158,16 @@ func svPreVote(pre *svVotePre, kind int) func(e *svEnv) {
 				}
 			}
 			pre.opinions = append(pre.opinions, op)
+		}
+		// B may have unstaked everything since the snapshot was taken: its vote record keeps
+		// the snapshot power, its validator record (kept for a few blocks) has none
+		if kind == 2 && !pre.plainValidators && sv.Choice("prop.bUnstakedSinceTheSnapshot", 2) == 1 {
+			pt := svParty_(1)
+			z := identity.NewValidator(pt.Addr, pt.Addr, pt.Pub, pt.Pub, *balance.NewAmount(0), "nB")
+			z.Power = 0
+			if err := vs.Set(*z); err != nil {
+				sv.Unreachable("unstaked validator")
+			}
 		}
 		// representation invariant: a proposal sits in the passed / failed(voted no)
 		// store only with a recorded tally that says so
@@ -236,7 +267,7 @@ func svBystanderProposalUntouched(e *svEnv) {
 
 // SV_C14_vote_expire_finalize: one vote / expire / finalise transaction.
 //
-// sv:bounds proposal (general type) in voting, funding, passed, failed (voted no), finalized or failed (cancelled) stage; pass percentage 51, 67 or 75; validator snapshot of 2-3 parties with power table {1,1,2} (thorough: also {1,1,1}, {33,33,34}, {49,2,49}); recorded opinions of A and B unknown/yes/no/give-up consistent with the stage, C has not voted (quick: finalise from the vectors yes,yes / no,no); pass percentage quick 51 or 75; voting deadline arbitrary (any relation to block height 20); escrowed total arbitrary; the shared proposal store's selected stage prefix (in-memory residue of the previous handler) active, failed or passed; kind: vote (any validator field and voter, opinion yes/no/give-up), expire, finalise (delivered twice); mempool-admitted regime
+// sv:bounds proposal (general type) in voting, funding, passed, failed (voted no), finalized or failed (cancelled) stage; pass percentage 51, 67 or 75; validator snapshot of 2-3 parties with power table {1,1,2} (the third party may instead hold a zero-power validator record outside the snapshot, for finalise) (thorough: also {1,1,1}, {33,33,34}, {49,2,49}); recorded opinions of A and B unknown/yes/no/give-up consistent with the stage, C has not voted (quick: finalise from the vectors yes,yes / no,no); pass percentage quick 51 or 75; voting deadline arbitrary (any relation to block height 20); escrowed total arbitrary; the shared proposal store's selected stage prefix (in-memory residue of the previous handler) active, failed or passed; kind: vote (any validator field and voter, opinion yes/no/give-up), expire, finalise (delivered twice); mempool-admitted regime
 // sv:outside configuration-update proposals (the update function table); more than 3 validators; validator-set changes between snapshot and vote; the BeginBlock queueing of internal transactions (the handlers are driven directly, as a mempool submission does)
 // sv:goal a second proposal (in voting, with votes and an escrow) that no transaction names keeps its stage, votes and escrow; a vote succeeds only while voting and not after the deadline, only for a snapshotted validator, changes only that validator's opinion, and moves the proposal to passed / failed exactly when the exact-integer tally over the recorded opinions says so; expire succeeds only for a proposal in voting whose deadline has passed and moves it to failed (insufficient votes); finalise succeeds with a distribution only for a completed proposal whose tally is decided, empties the escrow, credits nobody more than the escrow held in total, debits nobody, moves it to finalized, and a second finalise changes nothing
 func SV_C14_vote_expire_finalize() {
@@ -356,6 +387,9 @@ func SV_C14_vote_expire_finalize() {
 					nval++
 				}
 			}
+			if pre.zeroRec {
+				nval++ // the distribution walks over every validator record
+			}
 			perVal := new(big.Int).Div(share(dist[0]), big.NewInt(nval))
 			wantGain := map[string]*big.Int{}
 			add := func(cell string, v *big.Int) {
@@ -363,6 +397,10 @@ func SV_C14_vote_expire_finalize() {
 					wantGain[cell] = new(big.Int)
 				}
 				wantGain[cell].Add(wantGain[cell], v)
+			}
+			if pre.zeroRec {
+				add("b:C:OLT", perVal)
+				sv.Cover(true, "distribution-with-a-zero-power-record")
 			}
 			for i := 0; i < e.n; i++ {
 				if pre.isVal[i] {
